@@ -398,6 +398,10 @@ func safeCorrect(script []byte) (ok bool, panicked bool) {
 	return scparser.IsScriptCorrect(script, nil) == nil, false
 }
 
+// traceStep, when set (autopsy re-run of a case that killed its process), is
+// called before every instruction with the phase, step, offset and opcode.
+var traceStep func(phase string, step, ip int, op opcode.Opcode)
+
 type monitor struct {
 	preStacks []*vm.Stack
 	preSnap   [][]stackitem.Item
@@ -536,6 +540,9 @@ func (m *monitor) run(c *caseCfg) (o outcome) {
 					}
 				}
 			}
+		}
+		if traceStep != nil {
+			traceStep("monitored-step", o.Steps, ip, op)
 		}
 		preDepth := len(v.Istack())
 		if len(c.Subs) > 0 && !o.EverCyclic {
@@ -723,6 +730,13 @@ func runPlain(c *caseCfg) (state string, gas int64, viol *violation) {
 	}
 	v.SetGasLimit(c.GasLimit)
 	installLoader(v, c.Subs)
+	if traceStep != nil {
+		n := 0
+		v.SetOnExecHook(func(_ util.Uint160, off int, op opcode.Opcode) {
+			traceStep("plain-run", n, off, op)
+			n++
+		})
+	}
 	v.Load(c.Script)
 	v.SetGasLimit(c.GasLimit)
 	var pan any
